@@ -23,14 +23,7 @@ ASSUMPTIONS = ["K' rows are identified with their (J, S, H, W, P1) as read by th
 
 
 def table_rows():
-    src = open(C.REPO + "/src/systematic_constants.rs").read()
-    body = src[src.index("SYSTEMATIC_INDICES_AND_PARAMETERS") :]
-    body = body[body.index("= [") : body.index("];")]
-    rows = [tuple(int(x) for x in m.groups()) for m in re.finditer(r"\((\d+),\s*(\d+),\s*(\d+),\s*(\d+),\s*(\d+)\)", body)]
-    p1src = src[src.index("P1_TABLE") :]
-    p1src = p1src[p1src.index("= [") : p1src.index("];")]
-    p1 = dict((int(a), int(b)) for a, b in re.findall(r"\((\d+),\s*(\d+)\)", p1src))
-    return rows, p1
+    return C.repo_table2()
 
 
 def cases(rng, tier):
